@@ -78,6 +78,8 @@ type CDPSpec struct {
 	SamePath int  `json:"same_path,omitempty"`
 	NoAKI    bool `json:"no_aki,omitempty"` // CRLs of this CDP carry no authorityKeyIdentifier
 	PEM      bool `json:"pem,omitempty"`    // served PEM encoded
+	// Form: "" v2 with cRLNumber | "nonumber" v2 without cRLNumber | "v1" version 1 list (no extensions at all)
+	Form string `json:"form,omitempty"`
 }
 
 // Usable reports whether the set contains a location the loader supports.
@@ -85,7 +87,7 @@ func (c CDPSpec) Usable() bool { return c.Kind == "http" || c.Kind == "http2" ||
 
 // Content is what the origin serves for a CDP.
 type Content struct {
-	// Kind: good | badsig | unknown-signer | garbage | truncated | critical | httperr | empty
+	// Kind: good | badsig | unknown-signer | garbage | truncated | critical | httperr | empty | abort (connection reset mid-body)
 	Kind string `json:"kind"`
 	Set  []int  `json:"set,omitempty"` // indices into EntryU
 	K    int    `json:"k,omitempty"`
@@ -99,6 +101,10 @@ type Event struct {
 	Issuer  int     `json:"issuer,omitempty"`  // handshake without CDP: issuer of the certificate
 	Probe   int     `json:"probe,omitempty"`   // handshake: index into ProbeU
 	Content Content `json:"content,omitempty"` // origin
+	// restart only: SetSig switches the configured signature_validation_mode to Sig for the new process (a
+	// configuration change across a restart; only used with configured lists)
+	SetSig bool   `json:"set_sig,omitempty"`
+	Sig    string `json:"sig,omitempty"`
 }
 
 // Spec is a whole history.
@@ -336,7 +342,7 @@ func (w *World) build(c int, ct Content) []byte {
 		signer = w.other.Issuer()
 	case "garbage":
 		return []byte(fmt.Sprintf("\x30\x82\x01\x00 this is not a CRL %d", ct.K))
-	case "httperr":
+	case "httperr", "abort":
 		return nil
 	case "empty":
 		return []byte{}
@@ -349,6 +355,9 @@ func (w *World) build(c int, ct Content) []byte {
 		spec.IssuerDER = w.cas[cd.Issuer].Issuer().Cert.RawSubject
 	}
 	spec.SigAlg = gen.CompatibleAlgs(signer.Key)[1+w.number%4]
+	if cd.Form == "nonumber" || cd.Form == "v1" {
+		spec.Exts = nil
+	}
 	if !cd.NoAKI {
 		if ext, ok := gen.AKIExtension("keyid", signer.Cert); ok {
 			spec.Exts = append(spec.Exts, gen.Ext{OID: gen.OIDAKI, Value: ext.Value})
@@ -359,6 +368,15 @@ func (w *World) build(c int, ct Content) []byte {
 	}
 	for _, e := range ct.Set {
 		spec.Entries = append(spec.Entries, EntryU[e])
+	}
+	if cd.Form == "v1" && ct.Kind != "critical" {
+		// a version 1 list: no crlExtensions, no entry extensions
+		spec.Version, spec.HasExts, spec.Exts = -1, false, nil
+		for i := range spec.Entries {
+			spec.Entries[i].Exts = nil
+		}
+	} else if len(spec.Exts) == 0 {
+		spec.HasExts = false
 	}
 	der := spec.MustBuild(signer.Key)
 	if ct.Kind == "truncated" {
@@ -381,6 +399,12 @@ func (w *World) serve(c int, ct Content) {
 		mirror = p[:i] + ".mirror" + p[i:]
 	}
 	for _, path := range []string{p, mirror} {
+		if ct.Kind == "abort" {
+			good := ct
+			good.Kind = "good"
+			o.AbortMidBody(path, w.build(c, good))
+			continue
+		}
 		if ct.Kind == "httperr" {
 			o.Status(path, []int{500, 503, 404}[ct.K%3], "<html>error</html>")
 		} else {
@@ -562,6 +586,9 @@ func Run(spec Spec, x *ev.Ctx, obs Observer) (*Result, error) {
 			w.checker.Cleanup()
 			w.checker = nil
 			m.restart()
+			if e.SetSig {
+				spec.Config.Sig = e.Sig
+			}
 			if err := provision(); err != nil {
 				return res, fmt.Errorf("event %d (restart): %v", i, err)
 			}
@@ -737,16 +764,27 @@ type confModel struct {
 	m     *Model
 	sets  map[string][]int // key "file:c" / "url:c"
 	alien map[string]bool
+	kind  map[string]string // content kind the set was accepted from
 }
 
 func newConfModel(m *Model) *confModel {
-	return &confModel{m: m, sets: map[string][]int{}, alien: map[string]bool{}}
+	return &confModel{m: m, sets: map[string][]int{}, alien: map[string]bool{}, kind: map[string]string{}}
 }
 
 func (c *confModel) reload() {
 	if !c.m.spec.Config.Disk {
 		c.sets = map[string][]int{}
 		c.alien = map[string]bool{}
+		c.kind = map[string]string{}
+	}
+	// a persisted configured list is re-verified under the mode of the new process: what does not verify under
+	// 'verify' is not in force after the restart
+	for k, kind := range c.kind {
+		if !c.m.confAcceptable(Content{Kind: kind}) {
+			delete(c.sets, k)
+			delete(c.alien, k)
+			delete(c.kind, k)
+		}
 	}
 	c.tick()
 }
@@ -756,12 +794,14 @@ func (c *confModel) tick() {
 		if c.m.confAcceptable(c.m.origin[i]) {
 			c.sets[fmt.Sprintf("file:%d", i)] = append([]int(nil), c.m.origin[i].Set...)
 			c.alien[fmt.Sprintf("file:%d", i)] = c.m.origin[i].Kind == "unknown-signer"
+			c.kind[fmt.Sprintf("file:%d", i)] = c.m.origin[i].Kind
 		}
 	}
 	for _, i := range c.m.spec.Config.ConfURLs {
 		if c.m.confAcceptable(c.m.origin[i]) {
 			c.sets[fmt.Sprintf("url:%d", i)] = append([]int(nil), c.m.origin[i].Set...)
 			c.alien[fmt.Sprintf("url:%d", i)] = c.m.origin[i].Kind == "unknown-signer"
+			c.kind[fmt.Sprintf("url:%d", i)] = c.m.origin[i].Kind
 		}
 	}
 }
